@@ -67,7 +67,7 @@ REQUIRED_COUNTERS = ['comp:' + c for c in COMPS] + \
      'cell:mux-int-shape', 'cell:mux-array-val',
      'hist:rerun', 'hist:resetup', 'hist:resetup-extended', 'hist:resetup-mode-flip', 'hist:embed-nlbgs',
      'hist:embed-newton', 'hist:embed-doe', 'hist:set-default-input', 'hist:linsys-vecN-new-A',
-     'hist:linsys-embed-lnbgs', 'hist:linsys-resetup-options', 'hist:balance-resolve',
+     'hist:linsys-embed-lnbgs', 'hist:embed-newton-nosub', 'hist:linsys-resetup-options', 'hist:balance-resolve',
      'hist:spline-new-x_interp'] + \
     ['hist-comp:' + c for c in COMPS] + \
     ['spline:' + m for m in ('slinear', 'lagrange2', 'lagrange3', 'cubic', 'akima', 'bsplines',
@@ -330,9 +330,11 @@ def coupled_solve_bounds(J, ins, outs, conn, fb, P0, lnbgs):
     return res
 
 
-def judge_state(ctx, tag, prob, comp, spec, xs, mode, seed, fb=None):
+def judge_state(ctx, tag, prob, comp, spec, xs, mode, seed, fb=None, band=0.0):
     """Judge outputs, component partials and totals of the problem's current state against the formula at
-    xs (values of all component inputs, component units).  Returns False after a violation."""
+    xs (values of all component inputs, component units).  Returns False after a violation.
+    band: extra relative/absolute band for outputs and totals when the state was converged by an outer Newton
+    iteration instead of being computed by the component (its residual tolerance bounds the state error)."""
     acc = ctx.acc
     ins, outs = spec['ins'], spec['outs']
     pre = '' if tag == 'first' else tag + ':'
@@ -354,7 +356,7 @@ def judge_state(ctx, tag, prob, comp, spec, xs, mode, seed, fb=None):
         if tuple(got.shape) != tuple(o['shape']):
             ctx.viol(pre + 'output-shape', 'output %s has shape %s, documented %s' % (o['name'], got.shape, o['shape']))
             continue
-        _cmp(ctx, pre + 'output', 'output ' + o['name'], got, o0[k], tol_of(o0[k], Do[k]))
+        _cmp(ctx, pre + 'output', 'output ' + o['name'], got, o0[k], tol_of(o0[k], Do[k]) + band * (1.0 + np.abs(o0[k])))
     try:
         tot = prob.compute_totals(of=['c.' + o['name'] for o in outs], wrt=[_wrt(ins[k], k) for k in conn],
                                   return_format='flat_dict') if conn else {}
@@ -380,12 +382,12 @@ def judge_state(ctx, tag, prob, comp, spec, xs, mode, seed, fb=None):
                 if fb:
                     rt = P0[(oi, k)]
                     _cmp(ctx, pre + 'totals-' + mode, 'total d%s/d%s' % (o['name'], i['name']), got, rt,
-                         tol_of(rt, DP[(oi, k)]) + 64 * EPS * np.abs(rt) + PB[(oi, k)])
+                         tol_of(rt, DP[(oi, k)]) + 64 * EPS * np.abs(rt) + PB[(oi, k)] + band * (1.0 + np.abs(rt)))
                 else:
                     fac, _ = conv(i['src_units'], i['units'])
                     _cmp(ctx, pre + 'totals-' + mode, 'total d%s/d%s' % (o['name'], i['name']), got, ref * fac,
                          tol * abs(fac) + 64 * EPS * np.abs(ref * fac))
-    if spec.get('extra') is not None:
+    if spec.get('extra') is not None and not band:
         spec['extra'](ctx, pre, prob, comp, xs, seed)
     return not ctx.bad
 
@@ -582,7 +584,10 @@ def embed(ctx, spec, hist, mode, seed):
         comp = prob.model.add_subsystem('c', spec['make']())
         _wire(prob, ivc, spec, fb=fb)
         prob.model.connect('c.' + outs[s]['name'], 'fb.y')
-        if hist['lin'] == 'lnbgs' and spec.get('lnbgs_ok'):
+        # implicit component whose state is converged by the outer Newton iteration only (its solve_nonlinear
+        # never runs); the totals go through its solve_linear (LinearBlockGS)
+        nosub = bool(how == 'newton' and spec.get('lnbgs_ok') and hist['flip'])
+        if nosub or (hist['lin'] == 'lnbgs' and spec.get('lnbgs_ok')):
             prob.model.linear_solver = om.LinearBlockGS(maxiter=100, atol=1e-300, rtol=1e-15, iprint=-1)
             fb['lnbgs'] = True
             acc.count('hist:linsys-embed-lnbgs')
@@ -590,6 +595,11 @@ def embed(ctx, spec, hist, mode, seed):
             prob.model.linear_solver = om.DirectSolver()
         if how == 'nlbgs':
             prob.model.nonlinear_solver = om.NonlinearBlockGS(maxiter=12, atol=1e-12, rtol=1e-12, iprint=-1)
+        elif nosub:
+            nl = prob.model.nonlinear_solver = om.NewtonSolver(solve_subsystems=False, maxiter=30, atol=1e-13,
+                                                               rtol=1e-13, iprint=-1)
+            nl.linear_solver = om.DirectSolver()
+            how = 'newton-nosub'
         else:
             prob.model.nonlinear_solver = om.NewtonSolver(solve_subsystems=True, maxiter=8, atol=1e-12,
                                                           rtol=1e-12, iprint=-1)
@@ -599,8 +609,21 @@ def embed(ctx, spec, hist, mode, seed):
             acc.count('hist:round-outside-domain')
             return
         _set_conn(prob, spec, p0)
+        band = 0.0
+        if nosub:
+            # start Newton next to the solution of the open loop
+            prob.set_val('fb.u', p0[t])
+            y0 = spec['ref'](p0)
+            for o, v in zip(outs, y0):
+                prob.set_val('c.' + o['name'], v)
+            band = 1e-9
         prob.run_model()
         nexec = prob.model.nonlinear_solver._iter_count
+        if nosub:
+            prob.model.run_apply_nonlinear()
+            if not float(np.max(np.abs(prob.model._residuals.asarray()))) <= 1e-11:
+                acc.count('hist:embed-newton-not-converged')
+                return
         # the values the component holds now
         cur = [np.asarray(prob.get_val('c.' + i['name']), dtype=float).reshape(i['shape']).copy() for i in ins]
         for k, i in enumerate(ins):
@@ -616,7 +639,7 @@ def embed(ctx, spec, hist, mode, seed):
             acc.count('hist:embed-no-feedback')     # sum(out_s) == 0: nothing circulated
         acc.count('hist:embed-' + how)
         acc.count('hist:embed-executions', max(int(nexec), 1))
-        judge_state(ctx, 'embed-' + how, prob, comp, spec, cur, mode, seed + 2000, fb=fb)
+        judge_state(ctx, 'embed-' + how, prob, comp, spec, cur, mode, seed + 2000, fb=fb, band=band)
     finally:
         _cleanup(prob)
 
